@@ -98,6 +98,9 @@ pub struct Config {
     pub state_fn: Option<Box<dyn Fn() -> Vec<u64> + Send + Sync>>,
     /// called at every decision with the mirror (all threads parked)
     pub monitor: Option<Box<dyn Fn(&Mirror, &[ThreadSt]) + Send + Sync>>,
+    /// append one line `n_enabled pos cur_enabled tid` per decision to this file (for executions
+    /// that end with the death of the process)
+    pub step_log: Option<std::path::PathBuf>,
 }
 
 struct St {
@@ -114,6 +117,10 @@ struct St {
     halt: Option<Halt>,
     done: bool,
     final_key: u64,
+    /// counts hook calls: the execution is alive as long as this moves
+    activity: u64,
+    /// with a controlled body every legitimate report comes from a registered thread
+    ignore_untracked: bool,
 }
 
 pub struct Ctl {
@@ -121,6 +128,7 @@ pub struct Ctl {
     cv: Condvar,
     state_fn: Option<Box<dyn Fn() -> Vec<u64> + Send + Sync>>,
     monitor: Option<Box<dyn Fn(&Mirror, &[ThreadSt]) + Send + Sync>>,
+    step_log: Option<Mutex<std::fs::File>>,
 }
 
 impl St {
@@ -318,6 +326,12 @@ impl Ctl {
         let t = en[pos];
         let at = st.threads[t].parked.expect("enabled thread is parked");
         let parked = st.threads.iter().map(|t| if t.exited { None } else { t.parked }).collect();
+        if let Some(f) = &self.step_log {
+            use std::io::Write;
+            let mut f = f.lock().unwrap();
+            let _ = writeln!(f, "{} {} {} {}", en.len(), pos, u8::from(cur_enabled), t);
+            let _ = f.flush();
+        }
         st.steps.push(Step { n_enabled: en.len(), pos, cur_enabled, tid: t, at, key, parked });
         st.step += 1;
         st.apply_grant(t, at);
@@ -327,7 +341,9 @@ impl Ctl {
     }
 
     fn park(&self, me: usize, p: Parked) {
+        crate::run::progress();
         let mut st = self.st.lock().unwrap();
+        st.activity += 1;
         if let Parked::Ev(ev) = p {
             // threads reach their start point in OS order; everything later is serialised
             if ev != Event::ThreadStart {
@@ -400,6 +416,11 @@ impl Controller for Ctl {
 
     fn note(&self, tid: Option<usize>, ev: Event) {
         let mut st = self.st.lock().unwrap();
+        if tid.is_none() && st.ignore_untracked {
+            // stragglers of an abandoned execution
+            return;
+        }
+        st.activity += 1;
         if ev == Event::ThreadExit {
             if let Some(me) = tid {
                 st.trace.push((tid, ev));
@@ -464,10 +485,13 @@ pub fn run<R: Send + 'static>(cfg: Config, body: impl FnOnce(Arc<Ctl>) -> R + Se
             halt: None,
             done: false,
             final_key: 0,
+            activity: 0,
+            ignore_untracked: cfg.consumer_controlled,
         }),
         cv: Condvar::new(),
         state_fn: cfg.state_fn,
         monitor: cfg.monitor,
+        step_log: cfg.step_log.map(|p| Mutex::new(std::fs::File::create(p).expect("cannot create step log"))),
     });
     verif::install(ctl.clone());
     let controlled = cfg.consumer_controlled;
@@ -484,16 +508,15 @@ pub fn run<R: Send + 'static>(cfg: Config, body: impl FnOnce(Arc<Ctl>) -> R + Se
             // thread-local exit guard reports ThreadExit for thread 0
         })
         .expect("cannot spawn body thread");
-    // wait for the end of the execution
-    let deadline = Instant::now() + Duration::from_secs(5);
+    // wait for the end of the execution; it is declared dead only after 5 s without a single hook
+    // call (a thread blocked outside the modelled operations), never because the machine is slow
     let mut body_result: Option<Result<R, String>> = None;
     {
         let mut st = ctl.st.lock().unwrap();
+        let mut seen = st.activity;
+        let mut since = Instant::now();
         loop {
-            if st.halt.is_some() {
-                break;
-            }
-            if st.done {
+            if st.halt.is_some() || st.done {
                 break;
             }
             // an uncontrolled body (free-running caller): the execution is over when the body returned
@@ -507,12 +530,15 @@ pub fn run<R: Send + 'static>(cfg: Config, body: impl FnOnce(Arc<Ctl>) -> R + Se
                     break;
                 }
             }
-            if Instant::now() > deadline {
+            if st.activity != seen {
+                seen = st.activity;
+                since = Instant::now();
+            } else if since.elapsed() > Duration::from_secs(5) {
                 let parked = st.parked_list();
-                st.halt = Some(Halt::Timeout(format!("execution made no progress; running={:?} parked={:?}", st.running, parked)));
+                st.halt = Some(Halt::Timeout(format!("no hook call for 5 s; running={:?} parked={:?} unregistered={:?}", st.running, parked, st.threads.iter().filter(|t| !t.registered).count())));
                 break;
             }
-            let (g, _) = ctl.cv.wait_timeout(st, Duration::from_millis(if controlled { 200 } else { 1 })).unwrap();
+            let (g, _) = ctl.cv.wait_timeout(st, Duration::from_millis(if controlled { 100 } else { 1 })).unwrap();
             st = g;
         }
     }
@@ -559,6 +585,22 @@ pub struct Stats {
     pub stopped_early: bool,
 }
 
+/// A timed-out execution (no hook call for 5 s) is only believed if it times out three times in a
+/// row; an overloaded machine must not look like a blocked thread.
+pub fn exec_retrying<R>(exec: &mut impl FnMut(&[usize]) -> Exec<R>, prefix: &[usize]) -> Exec<R> {
+    let mut x = exec(prefix);
+    for _ in 0..2 {
+        if !matches!(x.halt, Some(Halt::Timeout(_))) {
+            break;
+        }
+        // let threads of the abandoned execution that were still starting up pass their entry
+        // hook while no controller is installed (they then run free and stay invisible)
+        std::thread::sleep(Duration::from_secs(2));
+        x = exec(prefix);
+    }
+    x
+}
+
 /// Stateless depth-first search over all schedules with at most `bound` preemptions (iterative
 /// context bounding). `exec(prefix)` runs one execution; `check` sees every execution and returns
 /// false to stop the search.
@@ -572,7 +614,7 @@ pub fn explore_bounded<R>(
     let mut stack: Vec<Vec<usize>> = roots;
     stack.reverse();
     while let Some(prefix) = stack.pop() {
-        let x = exec(&prefix);
+        let x = exec_retrying(&mut exec, &prefix);
         stats.executions += 1;
         stats.max_depth = stats.max_depth.max(x.steps.len());
         stats.transitions += (x.steps.len() - prefix.len().min(x.steps.len())) as u64;
@@ -624,7 +666,7 @@ pub fn explore_states<R>(
     let mut stack: Vec<Vec<usize>> = roots;
     stack.reverse();
     while let Some(prefix) = stack.pop() {
-        let x = exec(&prefix);
+        let x = exec_retrying(&mut exec, &prefix);
         stats.executions += 1;
         stats.max_depth = stats.max_depth.max(x.steps.len());
         stats.max_preemptions_seen = stats.max_preemptions_seen.max(x.preemptions());
